@@ -82,10 +82,21 @@ func (c *Ctx) N(quick, thorough int) int {
 	return quick
 }
 
-func callImpl(f ImplFn, a []Val) (v Val) {
+func callImpl(f ImplFn, a []Val) (v Val) { return callImplNamed("", f, a) }
+
+// callImplNamed runs one implementation entry point with the buffer discipline of util.go
+func callImplNamed(name string, f ImplFn, a []Val) (v Val) {
+	prev, prevIn, prevOff := curImpl, callInputs, arenaOff
+	curImpl, callInputs, arenaOff = name, nil, 0
+	curCall++
 	defer func() {
 		if r := recover(); r != nil {
 			v = VPanic()
+		}
+		if name == "" {
+			curImpl, callInputs, arenaOff = prev, prevIn, prevOff
+		} else {
+			curImpl = prev
 		}
 	}()
 	return f(a)
@@ -109,7 +120,22 @@ func (c *Ctx) Case(fn string, args ...Val) Val {
 	}
 	argStr := L(args...).String()
 	noteInflight("case", fn, argStr)
-	v := callImpl(f, args)
+	v := callImplNamed(fn, f, args)
+	if key, detail := afterCall(c.Prop, fn); key != "" && !c.Quiet {
+		c.reportFailure("framework.buffers", argStr, key, detail)
+	}
+	callInputs = nil
+	// a sample of calls is repeated with spare capacity full of garbage behind every buffer
+	if !c.Quiet && c.NCases%4 == 0 {
+		roomy = true
+		v2 := callImplNamed(fn, f, args)
+		roomy = false
+		callInputs = nil
+		if v2.String() != v.String() {
+			c.reportFailure("framework.buffers", argStr, c.Prop+"/depends-on-spare-capacity/"+fn,
+				fmt.Sprintf("%s gives %s on exact-capacity buffers and %s when the same bytes are followed by spare capacity", fn, trunc(v.String(), 200), trunc(v2.String(), 200)))
+		}
+	}
 	if c.Tap != nil {
 		c.Tap(fn, args, v)
 	}
@@ -162,6 +188,20 @@ func (c *Ctx) Check(name string, args ...Val) bool {
 		c.Fails = append(c.Fails, Failure{c.Prop, name, L(args...).String(), key, detail})
 	}
 	return false
+}
+
+// reportFailure records a framework-level finding exactly like an oracle failure
+func (c *Ctx) reportFailure(oracle, args, key, detail string) {
+	c.Hist["oraclefail:"+key]++
+	n := 0
+	for _, fl := range c.Fails {
+		if fl.Key == key {
+			n++
+		}
+	}
+	if n < 5 {
+		c.Fails = append(c.Fails, Failure{c.Prop, oracle, args, key, detail})
+	}
 }
 
 func callOracle(f OracleFn, a []Val) (key, detail string) {
